@@ -829,7 +829,7 @@ impl Engine for GenEngine {
                 }
             }
         }
-        Outcome { violation, nontrivial, steps: steps.max(1), trace_hash: mix(&trace), executions: 1 }
+        Outcome { violation, nontrivial, steps: steps.max(1), trace_hash: mix(&trace), executions: 1, ..Default::default() }
     }
 
     fn shrink(&self, case: &GenCase) -> Vec<GenCase> {
